@@ -244,7 +244,7 @@ class BaseArray(BaseType):
     @classmethod
     def __default__(cls) -> BaseType:
         return type.__call__(
-            cls, [cls.type.__default__()] * (cls.num_entries if isinstance(cls.num_entries, int) else 0)
+            cls, [cls.type.__default__() for _ in range(cls.num_entries if isinstance(cls.num_entries, int) else 0)]
         )
 
     @classmethod
